@@ -103,7 +103,7 @@ def scenarios(tier: str) -> List[Any]:
                         out.append((engine, "incomplete", limit, size, term, "bytes"))
         for mx in (1, 2, 3):
             for n in range(1, mx + 3):
-                for mode in ("seq", "pipe", "h2", "h2c"):
+                for mode in ("seq", "seq_early", "pipe", "h2", "h2c"):
                     out.append((engine, "keepalive", mx, n, mode, 0))
         for mcs in (1, 2):
             for k in (1, 2, 3):
@@ -111,7 +111,7 @@ def scenarios(tier: str) -> List[Any]:
         for mhl in (64, 256):
             for extra in (0, mhl // 2, mhl, mhl * 3):
                 out.append((engine, "headerlist", mhl, extra, 0, 0))
-        for mr in (1, 2, 3):
+        for mr in (0, 1, 2, 3):
             for jit in (0, 1, 2):
                 for nconn in (1, 2, 3):
                     out.append((engine, "recycle", mr, jit, nconn, 0))
@@ -166,6 +166,17 @@ def build(params: Any) -> tuple:
         elif mode == "pipe":
             client = [("data", 0, b"".join(h1_request(b"GET", b"/r%d" % i) for i in range(n)))]
             conn = {"carrier": "h1", "methods": [b"GET"] * n}
+        elif mode == "seq_early":
+            # the application answers on the head alone: the response head leaves between two segments of the request
+            client = []
+            for i in range(n):
+                raw = h1_request(b"POST", b"/r%d" % i, body=b"abcd")
+                client.append(("data", 0, raw[:-2]))
+                client.append(("resp_heads", i + 1))
+                client.append(("data", 0, raw[-2:]))
+                client.append(("resp_done", i + 1))
+            conn = {"carrier": "h1", "methods": [b"POST"] * n}
+            apps = {"http": [OK[1], ("recv_body",), OK[2]]}
         else:
             client = []
             for i in range(n):
@@ -173,10 +184,10 @@ def build(params: Any) -> tuple:
                 client.append(("resp_count", i + 1))
             conn = {"carrier": "h1", "methods": [b"GET"] * n}
         # sequential mode: each request is sent only once the previous response is complete
-        sc = {**base, "conns": {0: conn}, "apps": {"http": OK},
+        sc = {**base, "conns": {0: conn}, "apps": apps if mode == "seq_early" else {"http": OK},
               "config": {"keep_alive_max_requests": mx, "keep_alive_timeout": 5},
               "sources": [("client", client)], "midflight": False,
-              "guards": {"resp_count": _resp_guard, "wait_h2": _wait_h2}}
+              "guards": {"resp_count": _resp_guard, "wait_h2": _wait_h2, "resp_heads": _resp_n_guard, "resp_done": _resp_n_guard}}
         return engine, sc
     if fam == "streams":
         _, _, mcs, k, _, _ = params
@@ -240,6 +251,15 @@ def _wait_h2(w: Any, ev: tuple) -> bool:
     return st is not None and st["status"] is not None
 
 
+def _resp_n_guard(w: Any, ev: tuple) -> bool:
+    """('resp_heads' | 'resp_done', n): the client has n response heads / n complete responses, or the connection closed."""
+    rec = w.conns.get(0)
+    if rec is None or rec.client.h1 is None or rec.closed_at is not None:
+        return True
+    rs = rec.client.h1.responses
+    return (len(rs) if ev[0] == "resp_heads" else sum(1 for r in rs if r["complete"])) >= ev[1]
+
+
 def _resp_guard(w: Any, ev: Any = None) -> bool:
     """Enabled when every request sent so far on connection 0 has a complete response (or the connection closed)."""
     rec = w.conns.get(0)
@@ -289,7 +309,7 @@ def oracle(w: Any, params: Any) -> List[dict]:
         sent = sum(1 for _, e in w.driver.fired if (e[0] == "cmd" and e[2] == "headers") or e[0] == "data")
         if mode != "pipe":
             expect = min(n, allowed)
-            if len(reqs) < min(expect, sent if mode != "seq" else n):
+            if len(reqs) < min(expect, sent if mode not in ("seq", "seq_early") else n):
                 out.append(V("under-limit-refused", tag, f"{len(reqs)} instances, {n} requests, allowed {allowed}"))
         else:
             if len(reqs) < min(n, allowed):
